@@ -14,7 +14,7 @@ cd $D/ov
 [ -d $D/tbase ] || cargo kani --no-default-features -Z stubbing -Z unstable-options --only-codegen --target-dir $D/tbase >/dev/null 2>&1
 for h in "$@"; do
   t=$D/t_$(echo $h | tr ':' '_'); [ -d $t ] || cp -a $D/tbase $t
-  ( /usr/bin/time -f "%es %MKB" cargo kani --no-default-features -Z stubbing -Z unstable-options --harness $h --exact --output-format terse --target-dir $t ${KANI_EXTRA} > $D/out_$(echo $h | tr ':' '_').txt 2>&1 ) &
+  ( ulimit -v 20000000; /usr/bin/time -f "%es %MKB" cargo kani --no-default-features -Z stubbing -Z unstable-options --harness $h --exact --output-format terse --no-assertion-reach-checks --target-dir $t ${KANI_EXTRA} > $D/out_$(echo $h | tr ':' '_').txt 2>&1 ) &
 done
 wait
 for h in "$@"; do echo "=== $h"; grep -A14 "VERIFICATION RESULT\|^error" $D/out_$(echo $h | tr ':' '_').txt | grep -v "^$" | head -24; tail -1 $D/out_$(echo $h | tr ':' '_').txt; done
